@@ -8,7 +8,7 @@ from engine import Op, set_mode
 
 PROP = "C01"
 QUICK_BOOST = 2
-LEAN_MODULES = ["IsoDT.Props.C01", "IsoDT.Props.C01q"]
+LEAN_MODULES = ["IsoDT.Props.C01", "IsoDT.Props.C01b", "IsoDT.Props.C01q"]
 RULE = ("time points drawn from boundary lists (year 0/negative/leap/century, month ends, day 365/366, "
         "week 1/52/53, 24:00, offsets incl. -00:30 and +-99:59) x exact durations at unit boundaries; "
         "a case is non-trivial when the addition crosses at least a day boundary; distinct by (op, arguments)")
